@@ -342,3 +342,57 @@ void ok_e__rand_bytes(uint8_t *buf, size_t size) {
 	rand_inc(ctx->rand, len + 1, ctx->counter);
 	ctx->counter = ctx->counter + 1;
 }
+
+/* ------------------------------------------------------------------ DRBG-CLAMP / HASHGEN-INC / RAND-FILL */
+/* seed material beyond the fixed buffer is dropped silently */
+static void bad_drbg_clamp__truncates(uint8_t *out, size_t out_len, uint8_t *in, size_t in_len) {
+	uint8_t buf[64];
+	in_len = RLC_MIN(in_len, sizeof(buf) - 5);
+	memcpy(buf + 5, in, in_len);
+	md_map(out, buf, 5 + in_len);
+}
+
+static void ok_hashgen(uint8_t *out, size_t out_len) {
+	uint8_t hash[RLC_MD_LEN], data[(RLC_RAND_SIZE - 1) / 2];
+	ctx_t *ctx = core_get();
+	memcpy(data, ctx->rand + 1, (RLC_RAND_SIZE - 1) / 2);
+	for (int i = 0; i < 3; i++) {
+		md_map(hash, data, sizeof(data));
+		memcpy(out, hash, RLC_MD_LEN);
+		out += RLC_MD_LEN;
+		rand_inc(data, (RLC_RAND_SIZE - 1) / 2, 1);
+	}
+}
+
+/* only the low word of the working copy is stepped: the carry into the rest is lost */
+static void bad_hashgen_inc__word(uint8_t *out, size_t out_len) {
+	uint8_t hash[RLC_MD_LEN], data[(RLC_RAND_SIZE - 1) / 2];
+	uint32_t ctr = 0;
+	ctx_t *ctx = core_get();
+	memcpy(data, ctx->rand + 1, (RLC_RAND_SIZE - 1) / 2);
+	for (int i = 0; i < 3; i++) {
+		md_map(hash, data, sizeof(data));
+		memcpy(out, hash, RLC_MD_LEN);
+		out += RLC_MD_LEN;
+		ctr++;
+		memcpy(data + sizeof(data) - 4, &ctr, 4);
+	}
+}
+
+/* fewer bytes than the digits in use hold */
+void bad_rand_fill__short__bn_rand(bn_t a, int sign, size_t bits) {
+	int digits;
+	size_t bytes;
+	RLC_RIP(bits, digits, bits);
+	bytes = digits * sizeof(dig_t) + bits / 8;
+	digits += (bits > 0 ? 1 : 0);
+	bn_grow(a, digits);
+	rand_bytes((uint8_t *)a->dp, bytes);
+	a->used = digits;
+	a->sign = sign;
+	if (bits > 0) {
+		dig_t mask = ((dig_t)1 << (dig_t)bits) - 1;
+		a->dp[a->used - 1] &= mask;
+	}
+	bn_trim(a);
+}
